@@ -20,6 +20,10 @@ for d in sorted(glob.glob(os.path.join(VERIF, "seeded", "*"))):
         benign.append("| %s | %s | %s | %s | %s |" % (name, m["property"], summ[:260], ", ".join(sorted(det)), ", ".join(alarms) or "none"))
         continue
     det = m.get("detected_by", {})
+    if m.get("neutralised"):
+        rows.append("| %s | %s | %s | %s | %s | %s |" % (name, m["property"], (m.get("summary") or "").replace("\n", " ").replace("|", "/")[:170],
+                    (m.get("needs") or "").replace("\n", " ").replace("|", "/")[:150], "(no longer a defect: " + m["neutralised"][:160] + ")", "-"))
+        continue
     caught = [c for c, v in det.items() if v["violations"] > 0]
     missed = [c for c, v in det.items() if v["violations"] == 0]
     total += 1
